@@ -317,10 +317,17 @@ def gen_scenario(rng, idx):
         if rng.random() < 0.4:
             body.append('  <import package="%sa"/>' % pkg)          # the same import twice
         body.append('  <section type="pa" name="*" attribute="pa"/>')
+    ns = []
+    if rng.random() < 0.2:
+        # a component in a package directory without __init__.py (a namespace package): whatever
+        # the loader makes of it, nothing stays open
+        packages[pkg + "ns"] = {"component.xml": '<component>\n  <sectiontype name="pn"/>\n</component>\n'}
+        ns = [pkg + "ns"]
+        body.insert(rng.randrange(len(body) + 1), '  <import package="%sns"/>' % pkg)
     body.append('  <key name="own" default="x"/>')
     main_xml = "<schema%s>\n%s\n</schema>\n" % (ext, "\n".join(body))
     return {"kind": "schema", "main_xml": main_xml, "files": files, "packages": packages,
-            "entry": rng.choice(["url", "file"])}
+            "namespace_packages": ns, "entry": rng.choice(["url", "file"])}
 
 
 class Runner:
@@ -330,6 +337,7 @@ class Runner:
         self.sc = sc
         self.comp = compose.Composed()
         self.comp.packages = sc["packages"]
+        self.comp.namespace_packages = set(sc.get("namespace_packages") or [])
         self.root = None
 
     def __enter__(self):
